@@ -6,13 +6,17 @@
   suites (dm-dec, dm-hl, dm-la) and by Obligations/C02.lean (character tables, randomisation kernels).
 
   The look-ahead (`HighLevelEncoder_lookAheadTest`, float arithmetic) is an arbitrary oracle
-  `la : message → position → current mode → mode` in every theorem.
+  `la : message → position → current mode → mode` in the encoder theorems; `laExactR ρ` is its exact integer model
+  with the float rounding `ρ` explicit (every theorem about it holds for every `ρ`).
 -/
 import Gzx.Proofs.DMTotalAB
 import Gzx.Proofs.DMMidstream
 import Gzx.Proofs.DMRoundTripGen
 import Gzx.Properties.C08
 import Gzx.Model.RS
+import Gzx.Proofs.DMCompose
+import Gzx.Proofs.DMLookAhead
+import Gzx.Proofs.DMEdifactEOD
 namespace Gzx.Properties.C02
 open Gzx Gzx.DMHighLevel
 
@@ -195,6 +199,50 @@ theorem dm_encoder_invariant_c40 (text : Bool) (syms : List SymbolInfo) (la : Lo
   obtain ⟨a', h1, _, _, _, h5, _, h7, h8⟩ := c40_step_post hbytes hL hle hm hnew h
   exact ⟨a', h1, h5, h7, h8⟩
 
+/-- `edifact_segment_inv`: if the decoder is in ASCII state after `cw0`, then after `cw0 ++ [240] ++ quadruples` of
+    EDIFACT-native characters `chars` (any multiple of four)
+      * followed by at most two codewords it has appended `chars` and reads those codewords in ASCII (the "two or
+        fewer bytes left" rule — what the encoder relies on when it omits the unlatch);
+      * followed by the one-codeword unlatch 124 it is back in ASCII provided AT LEAST TWO more codewords follow;
+      * followed by three characters + unlatch (one full group) it is back in ASCII whatever follows. -/
+theorem edifact_segment_inv (T : Tables) (cw0 : List Nat) (a : Acc) (h : DecodesTo T cw0 a) (hp : a.pend = 0)
+    (k : Nat) (chars : List Nat) (hl : chars.length = 4 * k) (hn : ∀ c ∈ chars, isNativeEDIFACT c = true) :
+    DecK T (cw0 ++ [240] ++ (writeQuads (chars.map ediVal)).1) (a.pushAll chars) 2 ∧
+    DecFrom T 2 (cw0 ++ [240] ++ (writeQuads (chars.map ediVal)).1 ++ edifactPack [31]) (a.pushAll chars) ∧
+    (∀ c1 c2 c3, isNativeEDIFACT c1 = true → isNativeEDIFACT c2 = true → isNativeEDIFACT c3 = true →
+      DecFrom T 0 (cw0 ++ [240] ++ (writeQuads (chars.map ediVal)).1 ++
+        edifactPack [ediVal c1, ediVal c2, ediVal c3, 31]) ((a.pushAll chars).pushAll [c1, c2, c3])) :=
+  ⟨edifact_segment_open h hp k chars hl hn, edifact_closed1 h hp k chars hl hn,
+   fun c1 c2 c3 h1 h2 h3 => edifact_closed4 h hp k chars hl hn c1 c2 c3 h1 h2 h3⟩
+
+example : (writeQuads ([65, 66, 67, 68].map ediVal)).1 = [4, 32, 196] ∧ edifactPack [31] = [124] := by decide
+example : decodeText refTables [240, 4, 32, 196, 124, 142, 129, 56] = .ok [65, 66, 67, 68, 49, 50] := by decide
+/-- with only ONE codeword behind it the unlatch 124 is read as the ASCII character '{' -/
+example : decodeText refTables [240, 4, 32, 196, 124, 142] = .ok [65, 66, 67, 68, 123, 49, 50] := by decide
+
+/-- `dm_encoder_invariant` (EDIFACT, whole call — `EdifactEncoder.encode` with `edifactHandleEOD` after the repair
+    7bca761): for EVERY look-ahead oracle and every symbol table, a call started right after the latch 240 either
+    fails or ends in ASCII mode with exactly the characters consumed so far decoded (`a'`), in one of five states
+    (`EdiPost`):
+      closed   unlatch inside full codewords (two or three buffered characters + 31): invariant, whatever follows;
+      tail     NO unlatch, the symbol has `k ≤ 2` codewords left and the rest of the message needs at most `k`
+               codewords in ASCII (the condition the repair made exact: extended characters count twice);
+      rewound  end of message, one or two characters buffered, fewer than three codewords left: nothing written for
+               them, position rewound, symbol forgotten — they are re-encoded in ASCII and the symbol the encoder
+               had picked for them leaves at most two codewords behind the last quadruple;
+      endpad   end of message, unlatch written in `3 - j` codewords (`j ≤ 2`) and the symbol has at least `j` more;
+      mid      the look-ahead left EDIFACT in mid-stream and the one-codeword unlatch 124 was written: it is read as
+               unlatch iff at least two more codewords follow in the FINAL symbol.
+    Only `mid` (and, through symbol re-selection, `rewound`) refers to what happens later; this is the global argument
+    that keeps EDIFACT out of the composed round trip (see `dm_roundtrip_edifact_needs_symbol_gap`). -/
+theorem dm_encoder_invariant_edifact (T : Tables) (syms : List SymbolInfo) (la : LookAhead) (c c' : Ctx) (a : Acc)
+    (hL : LatchedM T EDIFACT 240 la c a) (hle : c.pos ≤ c.total) (hnew : c.newEnc = none)
+    (h : edifactEncode syms la c = .ok c') :
+    ∃ a', a'.trailer = a.trailer ∧ c.pos ≤ c'.pos ∧ c'.pos ≤ c'.total ∧ c'.newEnc = some ASCII ∧
+      a'.rev.reverse = c'.msg.take c'.pos ∧ a'.pend = 0 ∧ EdiPost T syms c c' a' := by
+  obtain ⟨a', h1, _, _, _, h5, h6, h7, h8, h9, h10⟩ := edifact_step_post hL hle hnew h
+  exact ⟨a', h1, h5, h6, h7, h8, h9, h10⟩
+
 /-- in a tail state the ASCII encoder (oracle staying in ASCII) uses up the free codewords: the tail shrinks -/
 theorem dm_encoder_invariant_tail (T : Tables) (la : LookAhead) (c c' : Ctx) (a : Acc) (k : Nat)
     (hbytes : ∀ x ∈ c.msg, x < 256) (hT : Tail T c a k) (hm : c.hasMore = true) (hle : c.pos ≤ c.total)
@@ -206,24 +254,35 @@ theorem dm_encoder_invariant_tail (T : Tables) (la : LookAhead) (c c' : Ctx) (a 
 /-! ## round trip -/
 
 /-
-  Full statement (kept visible; NOT proved, and FALSE for an arbitrary oracle — see `dm_roundtrip_needs_x12_tail`):
+  Full statement (kept visible; NOT proved, and FALSE for an arbitrary oracle — see `dm_roundtrip_needs_x12_tail` —
+  and, once EDIFACT is admitted, FALSE for some symbol tables — see `dm_roundtrip_edifact_needs_symbol_gap`):
 
     theorem dm_roundtrip (syms) (la : LookAhead) (msg) (cfg) (cw) (hb : ∀ x ∈ msg, x < 256) :
         encodeHL syms la msg cfg = .ok cw → decodeText refTables cw = .ok msg
 
-  Proved part (`dm_roundtrip_five_modes_partial`): every encoding that uses ASCII, C40, Text, X12 and Base-256
-  encodation in any combination, i.e. every look-ahead oracle that never proposes EDIFACT from ASCII, under two
-  explicit conditions on the oracle at the very end of the message:
-    * `LaTailAscii`: with one character left it stays in ASCII (needed when a C40/Text/X12 segment was closed
-      without unlatch because exactly one codeword is free for that character);
-    * `LaX12Tail`: it neither keeps nor enters X12 for a last triplet followed by exactly one extended
-      character (otherwise `x12HandleEOD` omits the unlatch although that character needs two codewords).
-  Both hold for `HighLevelEncoder_lookAheadTest` on every input tried (they are what the `dm-la` suite and the
-  oracle on the real code exercise) but are not proved for the float look-ahead.
-  Missing: the EDIFACT encoder as a whole call.  Its groups with an explicit unlatch are read back only if at
-  least three codewords follow the last complete quadruple in the FINAL symbol, which depends on later symbol
-  re-selection (`ResetSymbolInfo`); that global argument is not formalised.  EDIFACT is covered by the codec
-  lemmas (`edifact_char_inv`, `edifact_pack_inv`), by exact-codeword correspondence and by the oracle.
+  Proved:
+    * `dm_roundtrip_five_modes_partial` / `…_on_partial`: every encoding that uses ASCII, C40, Text, X12 and Base-256
+      encodation in any combination, every symbol table, every hint configuration, for every look-ahead ORACLE with
+        `LaNoEdifactOn la msg`  along this message it never proposes EDIFACT from ASCII,
+        `LaTailAscii`           with one character left it stays in ASCII,
+        `LaX12Tail`             it neither keeps nor enters X12 for a last triplet followed by one extended character.
+    * `la_tail_ascii`, `la_x12_tail`: the last two are THEOREMS for the real look-ahead — exact arithmetic in units
+      of 1/12 under EVERY float rounding (`laExactR ρ`; the harness ties `HighLevelEncoder_lookAheadTest` to it
+      decision by decision) — hence `dm_roundtrip_real_lookahead_partial` (only `LaNoEdifactOn` left) and
+      `dm_roundtrip_no_edifact_window` (no oracle hypothesis at all for messages without four consecutive
+      EDIFACT-native characters).
+    * `dm_encoder_invariant_edifact`: the EDIFACT encoder as a whole call incl. every branch of `edifactHandleEOD`,
+      for every oracle and table: five end states.
+  Missing for dropping `LaNoEdifactOn`: the COMPOSITION of the EDIFACT end states with the rest of the run.
+    - `mid` (one-codeword unlatch 124 written in mid-stream) is decoded as unlatch only if at least two codewords
+      follow in the FINAL symbol.  That needs (a) the other four encoders' invariants re-proved from "decoder is in
+      ASCII state for continuations of length ≥ 2" instead of "for every continuation", and (b) an invariant about
+      symbol re-selection (`ResetSymbolInfo` in the C40 backtracking / EDIFACT rewind): the final symbol is never
+      smaller than what the EDIFACT call assumed, plus a table condition — consecutive admissible capacities differ
+      by at least 2 (`dm_roundtrip_edifact_needs_symbol_gap` shows it is necessary; ISO/IEC 16022 satisfies it).
+    - `tail` / `rewound` leave up to TWO characters to the ASCII encoder: `LaTailAscii` must cover two remaining
+      characters (`dm_roundtrip_edifact_needs_tail2`), and `rewound` needs ascending capacities.
+  EDIFACT is covered end to end by exact-codeword correspondence and by the oracle on the real code.
 -/
 
 /-- `dm_roundtrip`, five encoders (ASCII, C40, Text, X12, Base 256): for every symbol table, every hint
@@ -236,9 +295,91 @@ theorem dm_roundtrip_five_modes_partial (syms : List SymbolInfo) (la : LookAhead
     decodeText refTables cw = .ok msg :=
   roundtrip_gen syms la msg cfg cw hNoE hTA hXT hb h
 
+/-- the same with the EDIFACT condition for THIS message only: along the message the oracle never proposes
+    EDIFACT from ASCII (`LaNoEdifactOn`); strictly weaker than `LaNoEdifact` -/
+theorem dm_roundtrip_five_modes_on_partial (syms : List SymbolInfo) (la : LookAhead) (msg : List Nat) (cfg : Cfg)
+    (cw : List Nat) (hNoE : LaNoEdifactOn la msg)
+    (hTA : LaTailAscii la msg (initCtx msg cfg).total) (hXT : LaX12Tail la msg (initCtx msg cfg).total)
+    (hb : ∀ x ∈ msg, x < 256) (h : encodeHL syms la msg cfg = .ok cw) :
+    decodeText refTables cw = .ok msg :=
+  roundtrip_gen_on syms la msg cfg cw hNoE hTA hXT hb h
+
+/-! ### the real look-ahead: exact arithmetic up to float rounding
+
+  `laExactR ρ` (Model/DMHighLevel.lean Part 5) is `HighLevelEncoder_lookAheadTest` computed with exact counts in
+  units of 1/12, where `ρ` says at which steps the float64 sum of thirds of the C40 / Text / X12 count came out
+  above an integer (so that `math.Ceil` is one higher).  `LaFloatLike la`: every decision of `la` is the decision
+  of `laExactR ρ` for some `ρ`.  The harness establishes this for the real function decision by decision (suite
+  dm-la, op `laxr`: it recomputes the float64 sums next to the exact ones, checks that they differ only in that
+  way, and compares the real decision with `laExactR` under the observed `ρ`); plain exact arithmetic
+  (`laExact = laExactR noBump`) decides differently in ≈ 0.16 % of the sampled calls. -/
+
+/-- `LaTailAscii` is a THEOREM for the exact look-ahead under every float rounding: with one character left
+    (followed by the macro trailer RS EOT, if the message is a macro 05/06 message) it answers ASCII from ASCII -/
+theorem la_tail_ascii (ρ : Bump) (msg : List Nat) (cfg : Cfg) :
+    LaTailAscii (laExactR ρ) msg (initCtx msg cfg).total :=
+  laExactR_tail_ascii ρ msg _ (totOK_initCtx msg cfg)
+
+/-- `LaX12Tail` is a THEOREM for the exact look-ahead under every float rounding: for three characters followed by
+    one extended character at the end of the message (plus macro trailer) it answers X12 neither from X12 nor from
+    ASCII — wherever steps R / K look, the ASCII count is strictly below the X12 count -/
+theorem la_x12_tail (ρ : Bump) (msg : List Nat) (cfg : Cfg) :
+    LaX12Tail (laExactR ρ) msg (initCtx msg cfg).total :=
+  laExactR_x12_tail ρ msg _ (totOK_initCtx msg cfg)
+
+/-- the condition an EDIFACT segment without unlatch needs (`dm_roundtrip_edifact_needs_tail2`) also holds for the
+    exact look-ahead under every float rounding: with two non-extended characters left (plus macro trailer) it
+    answers ASCII from ASCII -/
+theorem la_tail2_ascii (ρ : Bump) (msg : List Nat) (cfg : Cfg) :
+    LaTail2Ascii (laExactR ρ) msg (initCtx msg cfg).total :=
+  laExactR_tail2_ascii ρ msg _ (totOK_initCtx msg cfg)
+
+/-- `dm_roundtrip` for every look-ahead that is exact arithmetic up to float rounding (`LaFloatLike`, in particular
+    `laExact` and every `laExactR ρ`): the two end-of-message conditions are discharged; what remains is
+    `LaNoEdifactOn la msg` — along this message the look-ahead never proposes EDIFACT from ASCII (e.g. the message
+    has no four consecutive EDIFACT-native characters: `la_no_edifact_of_no_quad`). -/
+theorem dm_roundtrip_real_lookahead_partial (syms : List SymbolInfo) (la : LookAhead) (hla : LaFloatLike la)
+    (msg : List Nat) (cfg : Cfg) (cw : List Nat) (hNoE : LaNoEdifactOn la msg)
+    (hb : ∀ x ∈ msg, x < 256) (h : encodeHL syms la msg cfg = .ok cw) :
+    decodeText refTables cw = .ok msg := by
+  obtain ⟨hTA, hXT⟩ := floatLike_tail_conditions la hla msg _ (totOK_initCtx msg cfg)
+  exact roundtrip_gen_on syms la msg cfg cw hNoE hTA hXT hb h
+
+/-- a sufficient condition for `LaNoEdifactOn`: if every window of four consecutive characters of the message
+    contains a character EDIFACT cannot encode, the exact look-ahead never proposes EDIFACT (its whole-group guard
+    answers ASCII when four characters follow; with at most three EDIFACT-native characters left before the end
+    the ASCII count is minimal), whatever the float rounding -/
+theorem la_no_edifact_of_no_quad (la : LookAhead) (hla : LaFloatLike la) (msg : List Nat)
+    (H : ∀ p, p + 4 ≤ msg.length → ((msg.drop p).take 4).all isNativeEDIFACT = false) :
+    LaNoEdifactOn la msg := by
+  intro p
+  obtain ⟨ρ, hρ⟩ := hla msg p ASCII
+  rw [hρ]
+  exact laExactR_no_edifact ρ msg H p
+
+/-- `dm_roundtrip` WITHOUT any oracle hypothesis for messages that have no four consecutive EDIFACT-native
+    characters (0x20..0x5E), every symbol table and hint configuration: for every look-ahead that is exact
+    arithmetic up to float rounding, what `encodeHL` returns decodes to exactly the message. -/
+theorem dm_roundtrip_no_edifact_window (syms : List SymbolInfo) (la : LookAhead) (hla : LaFloatLike la)
+    (msg : List Nat) (cfg : Cfg) (cw : List Nat)
+    (H : ∀ p, p + 4 ≤ msg.length → ((msg.drop p).take 4).all isNativeEDIFACT = false)
+    (hb : ∀ x ∈ msg, x < 256) (h : encodeHL syms la msg cfg = .ok cw) :
+    decodeText refTables cw = .ok msg :=
+  dm_roundtrip_real_lookahead_partial syms la hla msg cfg cw (la_no_edifact_of_no_quad la hla msg H) hb h
+
+example : LaFloatLike laExact := fun _ _ _ => ⟨noBump, rfl⟩
+example (ρ : Bump) : LaFloatLike (laExactR ρ) := fun _ _ _ => ⟨ρ, rfl⟩
 /-- table used by the examples: symbols of 4, 8 and 1558 data codewords -/
 def exSyms : List SymbolInfo := [⟨false, 4, 5, 8, 8, 1⟩, ⟨false, 8, 7, 10, 10, 1⟩, ⟨false, 1558, 620, 22, 22, 36⟩]
 
+/-- non-vacuity for the exact look-ahead: "abcdefghi" is latched to Text at once (three triplets, unlatch fills the
+    8-codeword symbol), "ABCDEFGHIJ" to C40 (three triplets, last character in ASCII without unlatch: tail state) -/
+example : encodeHL exSyms laExact [97, 98, 99, 100, 101, 102, 103, 104, 105] {} =
+    .ok [239, 89, 233, 109, 36, 128, 95, 254] := by decide +kernel
+example : encodeHL exSyms laExact [65, 66, 67, 68, 69, 70, 71, 72, 73, 74] {} =
+    .ok [230, 89, 233, 109, 36, 128, 95, 75] := by decide +kernel
+example : decodeText refTables [230, 89, 233, 109, 36, 128, 95, 75] = .ok [65, 66, 67, 68, 69, 70, 71, 72, 73, 74] := by
+  decide +kernel
 /-- non-vacuity: an oracle that latches C40 at the start ("ABCDEFG": two triplets, unlatch, 'G' in ASCII) -/
 example : encodeHL exSyms (fun _ pos mode => if mode = ASCII then (if pos = 0 then C40 else ASCII) else mode)
     [65, 66, 67, 68, 69, 70, 71] {} = .ok [230, 89, 233, 109, 36, 254, 72, 129] := by decide
@@ -258,6 +399,42 @@ theorem dm_roundtrip_needs_x12_tail :
       else if mode = X12 then (if pos = 3 then ASCII else X12) else ASCII,
    [238, 6, 106, 235, 106, 129, 161, 56], by decide, by decide⟩
 
+/-- an oracle that enters EDIFACT at the start and leaves it after the first quadruple -/
+def laEdifactOnce : LookAhead := fun _ pos mode =>
+  if mode = ASCII then (if pos = 0 then EDIFACT else ASCII)
+  else if mode = EDIFACT then (if pos = 4 then ASCII else EDIFACT) else mode
+
+/-- WITH EDIFACT THE ROUND TRIP IS FALSE FOR SOME SYMBOL TABLES: two admissible symbols whose capacities differ by
+    one (5 and 6 codewords; ISO/IEC 16022 has no such pair).  "ABCD12": one quadruple, the oracle leaves EDIFACT, one
+    codeword is free but "12" is counted as two → unlatch 124 written → the digit pair makes the symbol grow to 6
+    codewords, exactly ONE behind the unlatch → the decoder reads 124 as '{'.  So any theorem that admits EDIFACT
+    needs a hypothesis on the symbol table (consecutive capacities differ by at least 2, and — for `rewound` —
+    capacities ascend) in addition to oracle conditions. -/
+theorem dm_roundtrip_edifact_needs_symbol_gap :
+    ∃ (syms : List SymbolInfo) (cw : List Nat), encodeHL syms laEdifactOnce [65, 66, 67, 68, 49, 50] {} = .ok cw ∧
+      decodeText refTables cw ≠ .ok [65, 66, 67, 68, 49, 50] :=
+  ⟨[⟨false, 5, 7, 10, 10, 1⟩, ⟨false, 6, 7, 10, 10, 1⟩, ⟨false, 1558, 620, 22, 22, 36⟩],
+   [240, 4, 32, 196, 124, 142], by decide, by decide⟩
+
+/-- the same message and oracle with capacities 5, 8 (as in ISO/IEC 16022): two codewords follow, it decodes -/
+example : encodeHL [⟨false, 5, 7, 10, 10, 1⟩, ⟨false, 8, 10, 12, 12, 1⟩] laEdifactOnce [65, 66, 67, 68, 49, 50] {} =
+    .ok [240, 4, 32, 196, 124, 142, 129, 56] := by decide
+
+/-- after an EDIFACT segment that ends WITHOUT unlatch, up to TWO characters are left to the ASCII encoder: an
+    oracle that latches C40 there (allowed by `LaTailAscii`, which only speaks about ONE remaining character) breaks
+    the round trip — "ABCDab" in a 6-codeword symbol.  With EDIFACT, `LaTailAscii` has to cover two remaining
+    characters. -/
+theorem dm_roundtrip_edifact_needs_tail2 :
+    ∃ (la : LookAhead) (cw : List Nat), LaTailAscii la [65, 66, 67, 68, 97, 98] 6 ∧
+      encodeHL [⟨false, 6, 7, 10, 10, 1⟩, ⟨false, 12, 12, 14, 14, 1⟩] la [65, 66, 67, 68, 97, 98] {} = .ok cw ∧
+      decodeText refTables cw ≠ .ok [65, 66, 67, 68, 97, 98] :=
+  ⟨fun _ pos mode => if mode = ASCII then (if pos = 0 then EDIFACT else if pos = 4 then C40 else ASCII)
+      else if mode = EDIFACT then (if pos = 4 then ASCII else EDIFACT) else mode,
+   [240, 4, 32, 196, 230, 12, 169, 254, 99, 129, 251, 147],
+   by intro p hp; have : p = 5 := by omega
+      subst this; decide,
+   by decide, by decide⟩
+
 /-- `dm_roundtrip`, ASCII + Base-256 part. -/
 theorem dm_roundtrip_ascii_base256_partial (T : Tables) (syms : List SymbolInfo) (la : LookAhead)
     (hla : LaAB la) (msg : List Nat) (cfg : Cfg) (cw : List Nat)
@@ -276,51 +453,81 @@ theorem dm_roundtrip_ascii_partial (T : Tables) (syms : List SymbolInfo) (la : L
 
 /-- `dm_symbol_roundtrip_partial`: text → `encodeHL` → reference symbol of C08 (reference ECC, interleaving,
     Annex-F placement, finder/clock framing; any of the 30 ECC-200 sizes whose capacity equals the number of
-    codewords) → low-level decoder model of C08 (version by dimensions, data-region extraction, codeword
-    reading, de-interleaving) → Reed-Solomon decoding of every block → `decodeText` = text.
-    Hypotheses: the oracle conditions of `dm_roundtrip_five_modes_partial`; `hRS`: the Reed-Solomon decoder
-    model (C04) returns each reference block (data ++ ECC) unchanged — i.e. the reference ECC words are code
-    words of the decoder's code (C04 proves `rs_decode_clean` for words with zero syndromes; that the
-    reference ECC of C08 has zero syndromes is the link not proved here).  That the model's codewords are
-    bytes is proved (`encodeHL_bytes`). -/
+    codewords, 144x144 with its 8+2 unequal blocks included) → `Decoder.Decode` model: version by dimensions,
+    data-region extraction, codeword reading, de-interleaving, Reed-Solomon decoding of every block (C04 model
+    decoder over GF(256)/0x12D), de-interlacing copy, `decodeText` — returns exactly the text.
+    The Reed-Solomon step is a THEOREM: every reference block `data_b ++ ecc_b` has zero syndromes
+    (C08 `blocks_are_rs_codewords` / `eccBlock_zero_syndromes`), so C04's `rs_decode_clean` returns it unchanged.
+    `_partial` only because of the hypotheses on the look-ahead ORACLE inherited from
+    `dm_roundtrip_five_modes_partial`: `LaNoEdifact`, `LaTailAscii`, `LaX12Tail`. -/
 theorem dm_symbol_roundtrip_partial (syms : List SymbolInfo) (la : LookAhead) (msg : List Nat) (cfg : Cfg)
     (cw : List Nat) (hNoE : LaNoEdifact la)
     (hTA : LaTailAscii la msg (initCtx msg cfg).total) (hXT : LaX12Tail la msg (initCtx msg cfg).total)
     (hb : ∀ x ∈ msg, x < 256) (h : encodeHL syms la msg cfg = .ok cw)
-    (p : DMRef.Sym × Nat) (hp : p ∈ DMRef.table7.zipIdx) (hn : cw.length = p.1.nData)
-    (hRS : ∀ b ∈ List.range p.1.blocks,
-      RS.decode GF.dataMatrix256 (DMRef.blockData p.1 cw b ++ DMRef.blockEcc p.1 cw b) p.1.blkErr
-        = .ok (DMRef.blockData p.1 cw b ++ DMRef.blockEcc p.1 cw b)) :
-    ∃ v grid raw blocks,
+    (p : DMRef.Sym × Nat) (hp : p ∈ DMRef.table7.zipIdx) (hn : cw.length = p.1.nData) :
+    (∃ v grid raw blocks,
       DMDec.newBitMatrixParser DMDec.versions ⟨p.1.cols, p.1.rows, (DMRef.symbolBits p.1 cw).flatten.toArray⟩
         = .ok (v, grid) ∧
       DMDec.readCodewords v grid = .ok raw ∧
       DMDec.getDataBlocks raw v = .ok blocks ∧
       (∀ nb ∈ blocks, RS.decode GF.dataMatrix256 nb.2 p.1.blkErr = .ok nb.2) ∧
       DMDec.resultBytes blocks = .ok cw ∧
-      decodeText refTables cw = .ok msg := by
+      decodeText refTables cw = .ok msg) ∧
+    DMDec.decodeMatrix refTables ⟨p.1.cols, p.1.rows, (DMRef.symbolBits p.1 cw).flatten.toArray⟩ = .ok msg := by
   have hcwb := encodeHL_bytes syms la msg cfg cw hNoE hTA hXT hb h
+  have hrt := roundtrip_gen syms la msg cfg cw hNoE hTA hXT hb h
+  have hs := Gzx.Properties.C08.zipIdx_mem_table7 p hp
   have hchain := Gzx.Properties.C08.decoder_inverts_reference_symbol p hp cw hn hcwb
   simp only at hchain
   obtain ⟨h1, h2, h3, h4⟩ := hchain
-  refine ⟨_, _, _, _, h1, h2, h3, ?_, h4, roundtrip_gen syms la msg cfg cw hNoE hTA hXT hb h⟩
-  intro nb hnb
-  simp only [List.mem_map] at hnb
-  obtain ⟨b, hbm, rfl⟩ := hnb
-  exact hRS b hbm
+  constructor
+  · refine ⟨_, _, _, _, h1, h2, h3, ?_, h4, hrt⟩
+    intro nb hnb
+    simp only [List.mem_map] at hnb
+    obtain ⟨b, hbm, rfl⟩ := hnb
+    exact DMProofs.block_clean p.1 hs cw hn hcwb b (List.mem_range.1 hbm)
+  · unfold DMDec.decodeMatrix
+    have := DMProofs.decodeMatrixBytes_tolerates p hp cw hn hcwb (DMRef.codewords p.1 cw)
+      (DMProofs.codewords_length p.1 cw hn) (DMProofs.codewords_bytes p.1 cw hcwb)
+      (fun b _ => by rw [DMProofs.hamming_self]; omega)
+    unfold DMRef.symbolBits
+    rw [this]
+    exact hrt
 
-/-- non-vacuity of `hRS`: for "A12" = [66, 142, 129] in the 10x10 symbol the reference block is
+/-- the Reed-Solomon step in isolation, for every row of Table 7, every byte vector of the symbol's capacity
+    and every block: C04's decoder model returns the reference block unchanged (was hypothesis `hRS`) -/
+theorem dm_reference_blocks_decode_clean (s : DMRef.Sym) (hs : s ∈ DMRef.table7) (d : List Nat)
+    (hd : d.length = s.nData) (hb : ∀ x ∈ d, x < 256) (b : Nat) (hbB : b < s.blocks) :
+    RS.decode GF.dataMatrix256 (DMRef.blockData s d b ++ DMRef.blockEcc s d b) s.blkErr
+      = .ok (DMRef.blockData s d b ++ DMRef.blockEcc s d b) :=
+  DMProofs.block_clean s hs d hd hb b hbB
+
+/-- non-vacuity: for "A12" = [66, 142, 129] in the 10x10 symbol the reference block is
     [66, 142, 129, 170, 115, 225, 118, 63] and the Reed-Solomon decoder model returns it unchanged -/
 example : RS.decode GF.dataMatrix256 [66, 142, 129, 170, 115, 225, 118, 63] 5
     = .ok [66, 142, 129, 170, 115, 225, 118, 63] := by decide +kernel
+example : DMRef.blockData (DMRef.table7.getD 0 default) [66, 142, 129] 0 ++
+    DMRef.blockEcc (DMRef.table7.getD 0 default) [66, 142, 129] 0 = [66, 142, 129, 170, 115, 225, 118, 63] := by
+  decide +kernel
+/-- the oracle hypotheses are satisfiable together with the symbol hypotheses: the all-ASCII oracle, "A12",
+    the one-row table {10x10: 3 data codewords} -/
+example : LaNoEdifact (fun _ _ _ => ASCII) ∧ LaTailAscii (fun _ _ _ => ASCII) [65, 49, 50] 3 ∧
+    LaX12Tail (fun _ _ _ => ASCII) [65, 49, 50] 3 :=
+by
+  refine ⟨?_, ?_, ?_⟩
+  · intro m p; show (ASCII : Nat) ≠ EDIFACT; decide
+  · intro p _; rfl
+  · intro p ch _ _ _; exact ⟨by show (ASCII : Nat) ≠ X12; decide, by show (ASCII : Nat) ≠ X12; decide⟩
 
 /-! ## termination -/
 
 /-
-  Full statement (FALSE for an arbitrary oracle, see `dm_terminates_fails_for_some_oracle`; not proved for the
-  float look-ahead `laFloat`; for the real code termination is watchdog-backed):
+  Full statement (FALSE for an arbitrary oracle, see `dm_terminates_fails_for_some_oracle`; NOT proved for the real
+  look-ahead; for the real code termination is watchdog-backed, plus an exhaustive sweep of all strings of length
+  ≤ 5 / ≤ 6 over one representative per character class — harness `dm-term`, 433 160 strings in the quick tier, no
+  hang):
 
-    theorem dm_terminates (syms) (msg) (cfg) : encodeHL syms laFloat msg cfg ≠ .error .fuel
+    theorem dm_terminates (syms) (ρ) (msg) (cfg) : encodeHL syms (laExactR ρ) msg cfg ≠ .error .fuel
 
   Progress per encoder call (all proved above / in Proofs):
     ASCII data step            position strictly increases            (`dm_encoder_invariant_ascii`)
@@ -330,8 +537,21 @@ example : RS.decode GF.dataMatrix256 [66, 142, 129, 170, 115, 225, 118, 63] 5
                                characters could be taken              (`dm_encoder_invariant_x12`)
     C40 / Text                 position never decreases; +0 if the end-of-message backtracking removes every
                                character it had taken                 (`dm_encoder_invariant_c40`)
-  Hence a latch followed by a C40/Text/X12 call may consume nothing, and an oracle that asks for the same
-  latch again at the same position loops for ever.
+    EDIFACT                    position never decreases; +4 per quadruple, +0 if at most two characters were
+                               buffered at the end of the message and rewound (`dm_encoder_invariant_edifact`)
+  Hence the ONLY loop that has to be excluded is: ASCII latch to m ∈ {C40, Text, X12, EDIFACT} at position p, the
+  call of encoder m consumes nothing, back in ASCII at p the look-ahead answers m again.  What is missing, exactly:
+    X12      consumes nothing iff fewer than three characters remain; `laExactR` answers X12 from ASCII only if
+             the next three characters exist and are X12-native (guard + `asciiTailOK`-style check) — not assembled.
+    EDIFACT  consumes nothing iff at most two characters remain (rewound); with at most three EDIFACT-native
+             characters left `laExactR` answers ASCII (`ediTail_checked`) — not assembled.
+    C40/Text consumes nothing iff EVERY character up to the end of the message is backtracked, i.e. the value
+             counts are (1 or 4), 3, 3, …, 3 [, 1 or 4]; the characters with three values are extended ones, each costs
+             the ASCII count 2 and the C40/Text count 8/3, so `laExactR` never prefers C40/Text there (with four or
+             more such characters step R answers Base 256, with fewer step K answers ASCII or Base 256).  The
+             characterisation of "consumes nothing" needs a refinement of `c40_step_post` (the backtracking loop's
+             exit condition on the value-count residues) that is not proved.
+  No message on which the loop occurs is known: none in the exhaustive sweep, none in any generated case.
 -/
 
 /-- an oracle that always answers "C40" from ASCII: for the message "é" the C40 encoder takes 'é' (four
